@@ -18,7 +18,7 @@ from ..recipes import lpgen as L
 from ..recipes import ref as R
 
 LEVEL = "exploration"
-BUDGET_S = {"quick": 80, "thorough": 1500}
+BUDGET_S = {"quick": 420, "thorough": 1500}
 N_RANDOM = {"quick": 300, "thorough": 10000}
 METHODS = ["auto", "linprog", "highs", "highs-ds", "highs-ipm"]
 KINDS = ["optimal", "any", "infeasible", "unbounded"]
